@@ -1,4 +1,5 @@
-(* MODEL of two clients of ONE Server sharing its Socket::Poll (linux/epoll variant of
+(* MODEL of n clients (a list, indexed by the client number; the files keep their historical "2"
+   names) of ONE Server sharing its Socket::Poll (linux/epoll variant of
    src/Socket/Socket.cpp) and its closing-clients set:
 
      Socket::Poll::Private::poll    when selectedSockets is empty: epoll_wait, every reported
@@ -15,8 +16,8 @@
      _closingClients                HashSet in order of insertion; the closing pass takes the front
 
    Each client is a ServerWriteModel.st; every operation of the one-client model is available for
-   either client (On c x).  The cache of collected events [sel] is what one poll round leaves for
-   the following poll() calls, so what a callback of one client does to the other one takes effect
+   any client (On c x); a client beyond the list is in its initial state.  The cache of collected events [sel] is what one poll round leaves for
+   the following poll() calls, so what a callback of one client does to another one takes effect
    between the collection and the delivery of the other one's event.  Every one-client operation
    calls Poll::set / Poll::remove at most once, so its effect on the cache is computed from the
    registration before and after the operation ([resel]).  No proofs in this file. *)
@@ -27,38 +28,36 @@ Local Open Scope Z_scope.
 Local Open Scope bool_scope.
 
 Record st2 := mkst2 {
-  cl0 : st;                 (* client A *)
-  cl1 : st;                 (* client B *)
+  cls : list st;            (* the clients: client c is the c-th element (init beyond the list) *)
   sel : list entry;         (* Poll::Private::selectedSockets, oldest first *)
-  closq : list bool         (* Private::_closingClients, oldest first *)
+  closq : list cid          (* Private::_closingClients, oldest first *)
 }.
 
-Definition init2 : st2 := mkst2 init init [] [].
+Definition init2 : st2 := mkst2 [] [] [].
 
-Definition get2 (m : st2) (c : bool) : st := if c then cl1 m else cl0 m.
+Definition get2 (m : st2) (c : cid) : st := getc init (cls m) c.
 
 (* Poll::set / Poll::remove as seen by the cache: client c went from s to s' *)
-Definition resel (c : bool) (s s' : st) (l : list entry) : list entry :=
+Definition resel (c : cid) (s s' : st) (l : list entry) : list entry :=
   if registered s' then
     (if registered s then revoke c (int_r s) (int_w s) (int_r s') (int_w s') l     (* set, socket known *)
      else l)                                                                       (* set, socket added *)
   else (if registered s then forget c l else l).                                   (* remove *)
 
-Definition put2 (m : st2) (c : bool) (s s' : st) (l : list entry) : st2 :=
-  let l' := resel c s s' l in
-  let k' := clq_update c (closing s) (closing s') (closq m) in
-  if c then mkst2 (cl0 m) s' l' k' else mkst2 s' (cl1 m) l' k'.
+Definition put2 (m : st2) (c : cid) (s s' : st) (l : list entry) : st2 :=
+  mkst2 (setc init (cls m) c s') (resel c s s' l)
+        (clq_update c (closing s) (closing s') (closq m)).
 
 (* one epoll_event of the round: selectedSockets.append(socket, unmapEvents(native, events)) *)
-Definition collect_one (s : st) (c : bool) (n : native) : list entry :=
+Definition collect_one (s : st) (c : cid) (n : native) : list entry :=
   if negb (registered s) then []                       (* descriptor not in the epoll set *)
   else
     let n' := kernel_filter s n in
     if negb (reported n') then []                      (* epoll_wait reports nothing for it *)
     else let '(r, w) := unmap_events s n' in [mkentry c r w].
 
-Definition collect (m : st2) (evs : list (bool * native)) : st2 :=
-  mkst2 (cl0 m) (cl1 m) (flat_map (fun cn => collect_one (get2 m (fst cn)) (fst cn) (snd cn)) evs) (closq m).
+Definition collect (m : st2) (evs : list (cid * native)) : st2 :=
+  mkst2 (cls m) (flat_map (fun cn => collect_one (get2 m (fst cn)) (fst cn) (snd cn)) evs) (closq m).
 
 (* poll() returns the oldest cached event; run() dispatches it *)
 Definition deliver (m : st2) (o : outcome) : st2 * out2 :=
@@ -85,9 +84,9 @@ Definition step2 (m : st2) (x : op2) : st2 * out2 :=
       | PollReal o => single (real_native (inbound s) (peer_closed s)) o
       | _ => let '(s', r) := step s y in (put2 m c s s' (sel m), mkout2 (Some c) r false)
       end
-  | Collect first n0 n1 =>
+  | Collect evs =>
       match sel m with
-      | [] => (collect m (events_in_order first n0 n1), out2_none)
+      | [] => (collect m evs, out2_none)
       | _ => (m, out2_none)
       end
   | Deliver o => deliver m o
